@@ -278,6 +278,8 @@ class ConnectLinear:
         return (simple(result) and result.start == lo and result.end == hi
                 and implies(same, result.strand == s0) and implies(not same, result.strand is None))
 
+    returns = Rec("FeatureLocation", label="FLoptstrand", start=Int, end=Int, strand=Opt(Int))
+
 
 @contract(f"{FILE}::make_forwards", props=["C04"])
 class MakeForwards:
@@ -396,7 +398,7 @@ def lands_on_wrap(location, offset, wrap_point):
 
 @contract(f"{FILE}::offset_location", props=["C04", "C12"])
 class OffsetLocationRing:
-    params = {"location": OneOf(FL, CL(2, 2)), "offset": Int, "wrap_point": Int}
+    params = {"location": FL, "offset": Int, "wrap_point": Int}
 
     def requires(location, offset, wrap_point):
         return (wrap_point > 0 and within(location, wrap_point) and disjoint(location) and same_strand(location)
@@ -405,9 +407,10 @@ class OffsetLocationRing:
     ensures = {
         "same-bases-rotated": lambda location, offset, wrap_point, result:
             forall(range(0, wrap_point), lambda x: covers(result, rot(x, offset, wrap_point)) == covers(location, x)),
-        "length-strand-wf": lambda location, offset, wrap_point, result:
-            total_len(result) == total_len(location) and within(result, wrap_point) and disjoint(result)
-            and all(p.strand == location.parts[0].strand for p in result.parts),
+        "parts-inside-the-record-and-strand-kept": lambda location, offset, wrap_point, result:
+            within(result, wrap_point) and all(p.strand == location.parts[0].strand for p in result.parts),
+        "parts-disjoint": lambda location, offset, wrap_point, result: disjoint(result),
+        "length-kept": lambda location, offset, wrap_point, result: total_len(result) == total_len(location),
     }
     known = {"C04-F1": lands_on_wrap}
 
@@ -426,3 +429,13 @@ class OffsetLocationLine:
             result.parts[i].start == location.parts[i].start + offset
             and result.parts[i].end == location.parts[i].end + offset
             and result.parts[i].strand == location.parts[i].strand for i in range(n)))
+
+
+@contract(f"{FILE}::offset_location", props=["C04", "C12"])
+class OffsetLocationRingTwoParts:
+    """the same contract for two-part (multi-exon or origin-spanning) locations"""
+    variant = True
+    params = {"location": CL(2, 2), "offset": Int, "wrap_point": Int}
+    requires = OffsetLocationRing.__dict__["requires"]
+    ensures = OffsetLocationRing.__dict__["ensures"]
+    known = OffsetLocationRing.__dict__["known"]
